@@ -193,7 +193,13 @@ class Maker:
             self.side.append(v >= 0) if idx is None else None
             return SizedV(v if idx is not None else v)
         if k == "const":
-            return sh.a[0]
+            c = sh.a[0]
+            # mutable constants must not be shared between paths / calls
+            if isinstance(c, dict) and not c:
+                return {}
+            if isinstance(c, list) and not c:
+                return []
+            return c
         if k == "class":
             return resolve_class(ip, sh.a[0])
         if k == "enumconst":
